@@ -288,8 +288,10 @@ pub fn run(seed: u64, count: usize, outdir: &str) -> std::io::Result<i32> {
         // the signs of the zeros, which `f32::min` / `max` of two zeros (unspecified in Rust) decide: not compared.
         let diffed = diffed && match interval_eval(&vm, &dag.vs, &bx) {
             Ok((o, _)) => { let pos: std::collections::HashMap<usize, usize> = dag.roots.iter().enumerate().map(|(k, n)| (n.verif_index(), k)).collect();
-                let zero = |c: &Node| match dag.ctx.get_op(*c) { Some(Op::Const(k)) => k.0 == 0.0, _ => pos.get(&c.verif_index()).map(|j| o[*j].lower() == 0.0 && o[*j].upper() == 0.0).unwrap_or(true) };
-                !(0..dag.ctx.len()).any(|i| matches!(dag.ctx.get_op(Node::verif_new(i)), Some(Op::Binary(BinaryOpcode::Atan, l, r)) if zero(l) && zero(r))) }
+                // (also when only a BOUND of an argument interval is a zero: atan2 jumps by 2 pi with the sign of a zero first argument,
+                //  and the sign of a zero bound is what f32::min / max of two zeros - unspecified in Rust - made it)
+                let zero = |c: &Node| match dag.ctx.get_op(*c) { Some(Op::Const(k)) => k.0 == 0.0, _ => pos.get(&c.verif_index()).map(|j| o[*j].lower() == 0.0 || o[*j].upper() == 0.0).unwrap_or(true) };
+                !(0..dag.ctx.len()).any(|i| matches!(dag.ctx.get_op(Node::verif_new(i)), Some(Op::Binary(BinaryOpcode::Atan, l, r)) if zero(l) || zero(r))) }
             Err(_) => true };
         if !diffed { text.push_str(" x"); } else {
         match interval_eval(&vm, &dag.vs, &bx) {
